@@ -88,7 +88,7 @@ def check_aba(spec):
             B = Atoms(elements=list('NCS'), positions=a[[1, 0, 2]])
         case = dict(structure=S, cell=cell, planted=[(1, 0, 2), (3, 0, 4)])
     else:
-        case = repl.planted(spec['cell'], spec['pair'], spec['copies'], spec['seed'], noise=spec.get('noise', 0.0))
+        case = repl.planted(spec['cell'], spec['pair'], spec['copies'], spec['seed'], noise=spec.get('noise', 0.0), tilt=spec.get('tilt'))
         A, B = repl.patterns(spec['pair'])
     S, cell = case['structure'], case['cell']
     random.seed(1)
@@ -137,6 +137,16 @@ def run(rec, tier, seed):
             rec.case(repr(sorted(spec.items())), group='self', sample=spec if len(rec.samples) < 2 else None)
             if msg:
                 rec.fail('selfrepl', 'self-replacement', "%s on %r" % (msg, spec), spec, 'C08/self-replacement')
+    # sites that are almost, but not exactly, aligned with the pattern as written (turned by 0.2 - 1.7 degrees)
+    for ci, cell in enumerate(geo.CELLS):
+        for pair in ('swap-element', 'collinear-swap'):
+            if tier == 'quick' and (ci + (pair == 'collinear-swap')) % 2:
+                continue
+            spec = dict(cell=cell, pair=pair, copies=3, seed=seed * 10 + 40 + ci, aba=True, tilt=[0.004, 0.012, 0.03])
+            msg = check_aba(spec)
+            rec.case(repr(sorted(spec.items(), key=str)), group='A-B-A')
+            if msg:
+                rec.fail('selfrepl', 'reversible', "%s on %r" % (msg, spec), spec, 'C08/A-B-A')
     # the same substitutions with caller-supplied axis / orientation atoms (each role given to another atom than the default one)
     for ci, cell in enumerate(geo.CELLS):
         for hi, hints in enumerate(((1, 0, 2), (2, 0, 1), (1, 2, 0))):
